@@ -668,6 +668,8 @@ def rule_steer_lookup(ctx):
         if isinstance(sub, ast.Assign) and len(sub.targets) == 1 and isinstance(sub.targets[0], ast.Name):
             tname = sub.targets[0].id
             v = sub.value
+            if isinstance(v, ast.Compare) and len(v.ops) == 1 and isinstance(v.comparators[0], ast.Constant):
+                v = v.left        # a steering value kept as a boolean: `wrapped = <items>.WRAP.value == "YES"`
             mn = None
             # X.MNEM.value  or X["MNEM"].value
             if isinstance(v, ast.Attribute) and v.attr == "value":
@@ -783,7 +785,7 @@ def rule_every_line(ctx):
                 names = {x.id for x in ast.walk(t) if isinstance(x, ast.Name)}
                 is_blank = (names <= {linevar, "len"} and not any(isinstance(c, ast.Call) and isinstance(c.func, ast.Attribute) for c in ast.walk(t)))
                 is_comment = bool(names & set(cparams))
-                is_title = "startswith('~')" in txt or ("TITLE" in txt.upper() and ".match(" in txt)
+                is_title = "startswith('~')" in txt or (".match(" in txt and ("TITLE" in txt.upper() or ("re.compile(" in txt and "~" in txt)))
                 is_end = any(isinstance(c, ast.Compare) and "line_no" in ast.unparse(c) for c in ast.walk(t)) and linevar not in names
                 if not (is_blank or is_comment or is_title or is_end):
                     extra.append(txt)
